@@ -80,6 +80,9 @@ def SentWF (env : Env B H) (attach : Message B H → Option Nat) : Sent B H → 
 /-- every wait of the stream is shorter than `lim` ms -/
 def WaitsBelow (lim : Nat) (ts : TStream) : Prop := ∀ p ∈ ts, p.1 < lim
 
+instance (lim : Nat) (ts : TStream) : Decidable (WaitsBelow lim ts) := by
+  unfold WaitsBelow; infer_instance
+
 /-- the bytes of a timed stream -/
 def tbytes (ts : TStream) : Bytes := ts.map (·.2)
 
@@ -103,5 +106,14 @@ def DelaysOKIdle (net : NetCfg) : List (Sent B H) → TStream → Prop
     WaitsBelow HEADER_IO_TIMEOUT_MS ((ts.take MSG_HEADER_LEN).drop 1) ∧
     WaitsBelow BODY_IO_TIMEOUT_MS ((ts.take (encodeSent net m).length).drop 1) ∧
     DelaysOKIdle net ms (ts.drop (encodeSent net m).length)
+
+/-- how many reads time out (harmlessly, and are retried) under `DelaysOKIdle`: for every message the
+wait for its first byte, in whole `HEADER_IO_TIMEOUT`s -/
+def idleRetries (net : NetCfg) : List (Sent B H) → TStream → Nat
+  | [], _ => 0
+  | m :: ms, ts =>
+    (match ts with
+     | [] => 0
+     | (w, _) :: _ => w / HEADER_IO_TIMEOUT_MS) + idleRetries net ms (ts.drop (encodeSent net m).length)
 
 end GV.Codec
